@@ -81,5 +81,17 @@ func main() {
 	if res.Violated != "" {
 		fmt.Println("threads:", res.Threads)
 		fmt.Println("schedule:", res.Schedule)
+		fmt.Println("symInit:", res.SymInit)
+		rr, err := prog.ReplayTS(f, cfg, *pool, res.Schedule, res.SymInit)
+		if err != nil {
+			fmt.Println("replay error:", err)
+		} else {
+			for _, st := range rr.Steps {
+				fmt.Println("  ", st)
+			}
+			fmt.Printf("replay: violated=%q kind=%s fault=%s mismatch=%q runnable=%d\n", rr.Violated, rr.Kind, rr.Fault, rr.Mismatch, rr.StillRunnable)
+			fmt.Println("model final cells:", res.FinalCells)
+			fmt.Println("impl  final cells:", rr.FinalCells)
+		}
 	}
 }
